@@ -394,3 +394,97 @@ def run(repo, rep, want):
             rep.check(not bad_named, 'C14.b', 'wrapper-model:warning-names-printer[%s]' % label, where, 'the warning names the failing printer',
                       'scenario "%s": a failure warning does not contain the printer\'s module and qualified name: %s' % (label, bad_named[:1]), nontrivial=True)
     return n
+
+
+def comment_wiring(repo, rep, rule):
+    """C09.g, semantically: comment() / trailing_comment() wrappers built through the public functions are peeled off in any nesting,
+    each text lands in its own slot, a comment is attached to the printed document as a comment annotation, a trailing comment is
+    handed to the printer; is_commented recognises exactly such documents.  Returns the instance count."""
+    from engine.interp import DocV, AnnotV
+    from engine import docterm as D
+    w = World(repo)
+    m = w.m
+    where = m.funcs['unwrap_comments'].where if 'unwrap_comments' in m.funcs else m.relpath
+    n = 0
+
+    def call(fname, args):
+        return w._call(fname, args, {})
+    leaf = w.new('leaf', 'v')
+    shapes = [('c',), ('t',), ('c', 't'), ('t', 'c'), ('c', 'c'), ('t', 't'), ('c', 't', 'c'), ()]
+    for shape in shapes:
+        label = '+'.join({'c': 'comment', 't': 'trailing_comment'}[x] for x in shape) or 'bare value'
+        try:
+            v = leaf
+            want_c = want_t = None
+            # built inside-out: the last wrapper applied is the outermost
+            for i, kind in enumerate(shape):
+                text = '%s%d' % (kind, i)
+                r = call('comment' if kind == 'c' else 'trailing_comment', [v, Const(text)])
+                if r.raised is not None:
+                    raise Undecided('%s raises %s' % (kind, r.raised.what))
+                v = r.value
+            # unwrap_comments: innermost wrapper of each kind is the one assigned last
+            for i, kind in enumerate(shape):
+                pass
+            inner_c = next(('c%d' % i for i, k in enumerate(shape) if k == 'c'), None)
+            inner_t = next(('t%d' % i for i, k in enumerate(shape) if k == 't'), None)
+            r = call('unwrap_comments', [v])
+            n += 1
+            ok = r.raised is None and isinstance(r.value, TupleV) and len(r.value.items) == 3
+            got = None
+            if ok:
+                val, c_, t_ = r.value.items
+                got = ('the value' if val is leaf else prov(val), c_.v if isinstance(c_, Const) else prov(c_), t_.v if isinstance(t_, Const) else prov(t_))
+                ok = got == ('the value', inner_c, inner_t)
+            rep.check(ok, rule, 'unwrap_comments[%s]' % label, where, 'wrappers peeled off, each text in its slot',
+                      'unwrap_comments on %s gives (value, comment, trailing_comment) = %s, expected ("the value", %r, %r)'
+                      % (label, got if got is not None else (r.raised.what if r.raised else prov(r.value)), inner_c, inner_t), nontrivial=True)
+            # printing: comment attached as a comment annotation around the printed document; trailing comment reaches the printer
+            w.warnings = []
+            r = w._call('pretty_python_value', [v, w.it.construct(TypeV('PrettyContext'), [], {'indent': Const(4), 'depth_left': Const(5)}, None)], {})
+            n += 1
+            if r.raised is not None:
+                rep.fail(rule, 'print[%s]' % label, where, 'printing %s raises %s' % (label, r.raised.what))
+                continue
+            res = r.value
+            okp = True
+            detail = ''
+            if inner_c is not None:
+                t = res.t if isinstance(res, DocV) else None
+                okp = isinstance(t, D.Ann) and isinstance(t.label, tuple) and t.label[0] == 'comment' and inner_c in str(t.label[1]) \
+                    and isinstance(t.child, D.Text) and t.child.s == 'leaf(v)'
+                detail = 'the result is %s' % (D.show(t) if t is not None else prov(res))
+            else:
+                okp = isinstance(res, Const) and res.v == 'leaf(v)'
+                detail = 'the result is %s' % prov(res)
+            rep.check(okp, rule, 'print[%s]:comment-attached' % label, where, 'the comment is attached to the printed document (and only then)',
+                      'printing %s: %s; expected the printed value%s' % (label, detail, (' inside a comment annotation carrying %r' % inner_c) if inner_c else ' without annotation'),
+                      nontrivial=True)
+            if inner_t is not None:
+                n += 1
+                rep.check(any('trailing comment' in x for x in w.warnings), rule, 'print[%s]:trailing-comment-routed' % label, where,
+                          'the trailing comment is handed to the printer (the leaf printer does not take one: warning)',
+                          'printing %s: the trailing comment never reaches the printer call (no "does not support trailing comments" warning for a '
+                          'printer without that parameter; warnings: %s)' % (label, w.warnings[:2]), nontrivial=True)
+        except (Undecided, PathLimit) as e:
+            n += 1
+            rep.undecided(rule, 'comment-wiring[%s]' % label, where, str(e))
+    # comment() on a document annotates the document itself; is_commented recognises exactly comment annotations
+    try:
+        d = DocV(D.Text('x'))
+        r = call('comment', [d, Const('cd')])
+        n += 1
+        t = r.value.t if r.raised is None and isinstance(r.value, DocV) else None
+        okd = isinstance(t, D.Ann) and isinstance(t.label, tuple) and t.label[0] == 'comment' and 'cd' in str(t.label[1])
+        rep.check(okd, rule, 'comment(doc):annotates', where, 'comment() on a document attaches the comment to it',
+                  'comment(<document>, text) returns %s' % (D.show(t) if t is not None else (r.raised.what if r.raised else prov(r.value))), nontrivial=True)
+        for lab, val, exp in (('commented document', r.value, True), ('plain document', d, False), ('text', Const('x'), False),
+                              ('token annotation', DocV(D.Ann('Token.X', D.Text('x'))), False)):
+            rr = call('is_commented', [val])
+            n += 1
+            rep.check(rr.raised is None and isinstance(rr.value, Const) and bool(rr.value.v) is exp, rule, 'is_commented[%s]' % lab, where,
+                      'is_commented(%s) is %s' % (lab, exp), 'is_commented(%s) gives %s' % (lab, prov(rr.value) if rr.raised is None else rr.raised.what), nontrivial=True)
+    except (Undecided, PathLimit) as e:
+        n += 1
+        rep.undecided(rule, 'comment(doc)', where, str(e))
+    return n
